@@ -515,7 +515,7 @@ fn h2_case(rng: &mut Rng, ctx: &mut Ctx, idx: u64) {
     }
     let sc = Scenario {
         conns: 1, lazy: vec![true], conn_start_ms: vec![0], calls, specs, signal: Signal::Never, keep_clients: false,
-        pipe_cfg: if rng.bool() { PipeCfg::plain() } else { PipeCfg::gen(rng) }, server_window: None, client_window: None, max_frame: None, seed: rng.u64(), server_timeout: None, endpoint_timeout: None, max_connection_age: None, opts: 0,
+        pipe_cfg: if rng.bool() { PipeCfg::plain() } else { PipeCfg::gen(rng) }, server_window: None, client_window: None, max_frame: None, seed: rng.u64(), server_timeout: None, endpoint_timeout: None, max_connection_age: None, opts: 0, listener_faults: vec![],
     };
     let case_json = json!({"calls": sc.calls.iter().zip(&metas).map(|(c, m)| json!({"shape": format!("{:?}", c.shape), "request_meta": meta_json(&m.0), "initial_md": meta_json(&m.1), "status_meta": meta_json(&m.2), "fails": c.script.end.is_some()})).collect::<Vec<_>>()});
     ctx.begin("h2", case_json.clone());
